@@ -206,6 +206,8 @@ pub struct GenCfg {
     pub light_base: bool,
     pub allow_imports: bool,
     pub real_modules: Vec<String>,
+    /// synthetic `sim::*` modules may be generated (not possible when a real binary is driven)
+    pub synthetic_modules: bool,
 }
 
 pub const N_KINDS: usize = 24;
@@ -309,6 +311,7 @@ impl Gen {
             light_base: rng.chance(0.25),
             allow_imports: rng.chance(0.8),
             real_modules,
+            synthetic_modules: true,
         }
     }
 
@@ -1631,6 +1634,16 @@ impl Gen {
             .map(|m| m.name.clone())
             .collect();
         let r = self.rng.below(10);
+        if !self.cfg.synthetic_modules {
+            if self.cfg.real_modules.is_empty() {
+                gi.contains.remove("use");
+                gi.features.remove("import");
+                return self.statement(0, gi);
+            }
+            let name = self.rng.pick(&self.cfg.real_modules).clone();
+            self.pending_imports.push(name.clone());
+            return format!("use {name}");
+        }
         let name = if force_new || healthy.is_empty() || r < 3 {
             let n = self.make_module(None);
             gi.set_modules
